@@ -18,7 +18,7 @@ from corr.C02 import impl_build, model_build, canon_lex
 
 RULE = ("valid strict renderings (random trees over a 3-tag / realistic alphabet, random end-tag/whitespace/CDATA choices, and "
         "the small-scope set of all trees <= 3 nodes (thorough: <= 4) over {A,B,C1}) subjected to: every truncation point (each "
-        "character), every single aggregate end-tag deletion / renaming (4 spellings) / duplication / blank-padding, every "
+        "character), every single aggregate end-tag deletion / renaming (8 spellings: longer, unrelated, proper prefix, other case, proper suffix, prefixed, path-like, second half) / duplication / blank-padding, every "
         "transposition of adjacent aggregate end tags, stray text and stray end tags inserted at every token boundary, a second "
         "root (3 forms); plus empty / whitespace-only / garbage-only bodies and token soup. Non-trivial = the implementation "
         "raised or returned a root on a faulted body; distinct by document text")
